@@ -367,7 +367,8 @@ class Task:
                     result = r.v
                 # ---- normal return
                 for (cls, cond, post) in con.raises:
-                    c.prove(f"{name}/no-raise:{cls.__name__}", z3.Not(cond(s0, **a)), kind="post")
+                    if cond is not None:
+                        c.prove(f"{name}/no-raise:{cls.__name__}", z3.Not(cond(s0, **a)), kind="post")
                 rt = None if con.result_ty in (None, "none") else c.to_val(result)
                 if con.result_ty not in (None, "none"):
                     okty = self.result_type_ok(c, result, con.result_ty)
@@ -389,7 +390,8 @@ class Task:
                 for (k, cond, post) in con.raises:
                     if cls is k or (getattr(con, "raises_subclasses", False) and issubclass(cls, k)):
                         matched = True
-                        c.prove(f"{name}/raises:{k.__name__}/cond", cond(SV(c.heap0), **self.spec_args), kind="post")
+                        if cond is not None:
+                            c.prove(f"{name}/raises:{k.__name__}/cond", cond(SV(c.heap0), **self.spec_args), kind="post")
                         if post is None:
                             self.check_frame(c, SV(c.heap0), self.spec_args, name + f"/raises:{k.__name__}", unchanged=True)
                         else:
